@@ -106,6 +106,9 @@ var outcomes = []outcome{
 	{"sstore-clear-refund", func(x *world7) common.Address { return x.clearC }, 0, 21000 + 5006 - 4800, false, 4800},
 	{"revert", func(x *world7) common.Address { return x.revertC }, 0, 21000 + 6, true, 0},
 	{"out-of-gas", func(x *world7) common.Address { return x.oogC }, 0, -1, true, 0},
+	// a transfer of (balance - 1): affordable on its own, not once the fee has been deducted; the
+	// execution fails before any code runs and consumes the intrinsic gas only
+	{"transfer-unaffordable", func(x *world7) common.Address { return x.w.Eth[x.R] }, -1, 21000, true, 0},
 }
 
 func ceilMul(d sdk.Dec, n uint64) *big.Int {
@@ -168,6 +171,19 @@ func (x *world7) run(res *engine.Result, tier string, shard, n int, idx *int) {
 						}
 						to := oc.to(x)
 						spec := world.EthSpec{Type: typ, Nonce: nonce, Gas: gas, To: &to, Value: big.NewInt(oc.val), GasPrice: price, Cap: price, Tip: tip}
+						if oc.val < 0 {
+							// (only where the up-front fee is at least 2 base units; otherwise the value stays affordable)
+							pe := new(big.Int).Set(price)
+							if typ == 2 {
+								if pe = new(big.Int).Add(base, tip); pe.Cmp(price) > 0 {
+									pe = new(big.Int).Set(price)
+								}
+							}
+							if new(big.Int).Mul(pe, new(big.Int).SetUint64(gas)).Cmp(big.NewInt(2)) < 0 {
+								continue
+							}
+							spec.Value = new(big.Int).Sub(x.bal(w.Addrs[x.S]), big.NewInt(1))
+						}
 						alGas := int64(0)
 						if typ == 1 {
 							spec.AL = ethtypes.AccessList{{Address: w.Eth[3], StorageKeys: []common.Hash{{1}}}}
@@ -443,7 +459,7 @@ func Run(tier string) int {
 	}
 	return engine.Finish(res, engine.Meta{
 		Property: Prop, Tier: tier, Level: "model_checking", Start: start,
-		Rule: "full grid: parameter fixtures (base fee disabled/7/1e9, min gas price 0/below/equal/fractional, multiplier 0/0.5/1) x {legacy, access-list, dynamic-fee, 2-message eth, Cosmos, Cosmos+DynamicFee option} x gas limits x price axis around the floor x tips x {transfer, refund-earning SSTORE clear, revert, out of gas}; every case through the real DeliverTx; non-trivial = transaction that entered the block",
+		Rule: "full grid: parameter fixtures (base fee disabled/7/1e9, min gas price 0/below/equal/fractional, multiplier 0/0.5/1) x {legacy, access-list, dynamic-fee, 2-message eth, Cosmos, Cosmos+DynamicFee option} x gas limits x price axis around the floor x tips x {transfer, refund-earning SSTORE clear, revert, out of gas, transfer not affordable after the fee}; every case through the real DeliverTx; non-trivial = transaction that entered the block",
 		Assumptions: []string{
 			"EVM gas of the fixed programs is a hand-computed constant (21000 transfer; +5006-4800 for the cold SSTORE clear with refund; +6 for PUSH PUSH REVERT; whole limit for the loop; +2400+1900 for the access list)",
 			"'fee' in the acceptance clause is the fee the transaction carries: declared fee (Cosmos) / effective fee (eth); deducted-below-floor on the Cosmos route is an observation",
